@@ -38,6 +38,8 @@ def run(ctx):
     ctx.do(rule_wrapper)
     ctx.do(rule_raw_deref)
     ctx.do(rule_check_ref_tolerant)
+    ctx.do(rule_registry_lookup_tolerant)
+    ctx.do(rule_path_components_are_names)
     ctx.do(rule_store_ingestion_tolerant)
     # "returns a fully validated object": a value no serialisation can write is not validated
     from .C02 import rule_floats_finite
@@ -449,42 +451,57 @@ def rule_check_ref_tolerant(ctx):
 
 
 def rule_store_ingestion_tolerant(ctx, rule_id="C17.raw-deref"):
-    """The memory store's _add takes decoded content as it comes (a dictionary, a list, a bundle dictionary) and reads `type`,
-    `id` and `modified` from it -- partly BEFORE parse() has seen it, partly from what parse() returned, which for an
-    unregistered type is the caller's dictionary unvalidated.  Every constant-key subscript on the raw content or on the parse
-    result is under a presence test for that key (or replaced by .get / a raised library error): `add({})` must not raise
-    KeyError('type'), `add({'type': 'x-foo'})` not KeyError('id')."""
+    """The stores take decoded content as it comes (a dictionary, a list, a bundle dictionary, the content of a file) and read
+    `type`, `id`, `modified`, `objects` from it -- partly BEFORE parse() has seen it, partly from what parse() returned, which
+    for an unregistered type is the caller's dictionary unvalidated, and for a bundle an object whose `objects` may be absent.
+    Every constant-key subscript on the raw content or on the parse result is under a presence test for that key (or replaced
+    by .get / a raised library error): `add({})` must not raise KeyError('type'), `add({'type': 'x-foo'})` not KeyError('id'),
+    a store file holding an empty bundle not KeyError('objects')."""
     run = ctx.run
     prog = ctx.prog
-    fi = prog.func("stix2.datastore.memory::_add")
-    raw = {fi.params[1]}
-    for a_ in body_walk(fi.node):
-        if isinstance(a_, ast.Assign) and isinstance(a_.targets[0], ast.Name) and (
-                (isinstance(a_.value, ast.Call) and call_simple_name(a_.value) == "parse") or norm(a_.value) in raw):
-            raw.add(a_.targets[0].id)
-    n = 0
-    for x in body_walk(fi.node):
-        if not (isinstance(x, ast.Subscript) and isinstance(x.ctx, ast.Load) and isinstance(x.slice, ast.Constant)
-                and isinstance(x.slice.value, str) and norm(x.value) in raw):
-            continue
-        n += 1
-        k = x.slice.value
-        recv = norm(x.value)
-        # a guard counts when it names the same key on the same value or on one it was assigned from / to (aliases in `raw`)
-        guarded = any(pol and any(("'%s' in %s" % (k, r_)) in norm(t) for r_ in raw) for t, pol, _ in guard_chain(x)) or any(
-            (not pol) and any(("'%s' not in %s" % (k, r_)) in norm(t) for r_ in raw) for t, pol, _ in guard_chain(x))
-        # or an earlier statement of the function leaves when the key is missing
-        if not guarded:
-            for st_ in body_walk(fi.node):
-                if isinstance(st_, ast.If) and st_.lineno < x.lineno and any(("'%s' not in %s" % (k, r_)) in norm(st_.test) for r_ in raw) \
-                        and st_.body and isinstance(st_.body[-1], (ast.Raise, ast.Return)):
-                    guarded = True
-        run.check(guarded, rule_id, key(fi.module.relpath, fi.qualname, "content-key-read-under-presence-test:%s#%d" % (k, n)),
-                  "KeyError(%r) can escape from the store: the key is read from raw (or unvalidated) content with a subscript and no "
-                  "presence test" % k, file=fi.module.relpath, line=x.lineno, function=fi.qualname,
-                  expected="'%s' in <content> before %s['%s'] (or .get)" % (k, recv, k), found=short(x, 50))
-    if n < 2:
-        raise AnalysisError("memory _add: fewer than 2 constant-key reads of the content (%d): anchors lost" % n)
+    SITES = (
+        ("stix2.datastore.memory::_add", 1, 2),
+        ("stix2.datastore.filesystem::FileSystemSink._check_path_and_write", 1, 2),
+        ("stix2.datastore.filesystem::_check_object_from_file", None, 1),
+    )
+    for fid, pidx, floor in SITES:
+        fi = prog.func(fid)
+        raw = {fi.params[pidx]} if pidx is not None else set()
+        for _ in range(3):
+            for a_ in body_walk(fi.node):
+                if isinstance(a_, ast.Assign) and isinstance(a_.targets[0], ast.Name) and (
+                        (isinstance(a_.value, ast.Call) and call_simple_name(a_.value) == "parse") or norm(a_.value) in raw):
+                    raw.add(a_.targets[0].id)
+        n = 0
+        for x in body_walk(fi.node):
+            if not (isinstance(x, ast.Subscript) and isinstance(x.ctx, ast.Load) and isinstance(x.slice, ast.Constant)
+                    and isinstance(x.slice.value, str) and norm(x.value) in raw):
+                continue
+            k = x.slice.value
+            if k == "type" and pidx is None:
+                continue      # what parse() returns has a `type` (dict_to_stix2 refuses content without one)
+            n += 1
+            recv = norm(x.value)
+            # a guard counts when it names the same key on the same value or on one it was assigned from / to (aliases in `raw`)
+            def names_key(t, neg):
+                txt = norm(t)
+                return any((("'%s' not in %s" if neg else "'%s' in %s") % (k, r_)) in txt for r_ in raw) or (
+                    not neg and any(("%s.get('%s')" % (r_, k)) in txt for r_ in raw)) or (
+                    neg and any(("not %s.get('%s')" % (r_, k)) in txt for r_ in raw))
+            guarded = any(pol and names_key(t, False) for t, pol, _ in guard_chain(x)) or any(
+                (not pol) and names_key(t, True) for t, pol, _ in guard_chain(x))
+            # or an earlier statement of the function leaves when the key is missing
+            if not guarded:
+                for st_ in body_walk(fi.node):
+                    if isinstance(st_, ast.If) and st_.lineno < x.lineno and names_key(st_.test, True) \
+                            and st_.body and isinstance(st_.body[-1], (ast.Raise, ast.Return)):
+                        guarded = True
+            run.check(guarded, rule_id, key(fi.module.relpath, fi.qualname, "content-key-read-under-presence-test:%s#%d" % (k, n)),
+                      "KeyError(%r) can escape from the store: the key is read from raw (or unvalidated) content with a subscript and no "
+                      "presence test" % k, file=fi.module.relpath, line=x.lineno, function=fi.qualname,
+                      expected="'%s' in <content> before %s['%s'] (or .get)" % (k, recv, k), found=short(x, 50))
+        if n < floor:
+            raise AnalysisError("%s: fewer than %d constant-key reads of the content (%d): anchors lost" % (fi.qualname, floor, n))
 
 
 def rule_failed_write_leaves_no_file(ctx, rule_id="C17.commit-last"):
@@ -797,3 +814,82 @@ def rule_recursion_converted(ctx):
                       expected="try: ... except OverflowError: raise <library error>", found=short(call))
     if m < 1:
         raise AnalysisError("no float() conversion reachable outside the wrapper found (anchor lost: canonicalisation of numbers)")
+
+
+def rule_registry_lookup_tolerant(ctx):
+    """class_for_type() is called with a version that comes straight from the content (`spec_version` of the document, the
+    caller's version=): "2.2", 21, true.  The lookup answers None for anything that is not registered -- it never indexes a
+    registry table with a key derived from its parameters (KeyError / TypeError would escape from parse())."""
+    from ..forward import flow_of
+    run = ctx.run
+    prog = ctx.prog
+    R = "C17.raw-deref"
+    fi = prog.func("stix2.registry::class_for_type")
+    rel = fi.module.relpath
+    fl = flow_of(fi)
+    params = set(fi.params)
+    bad = []
+    n = 0
+    for x in body_walk(fi.node):
+        if isinstance(x, ast.Subscript) and isinstance(x.ctx, ast.Load):
+            n += 1
+            pr = fl.prov(x.slice, fl.cfg.stmt_node_containing(x))
+            if set(pr.params) & params:
+                bad.append(x)
+    run.check(not bad, R, key(rel, fi.qualname, "lookup-by-parameter-is-tolerant"),
+              "the registry is indexed with a key derived from the parameters of class_for_type(): a `spec_version` the library does "
+              "not implement (\"2.2\"), or one of the wrong kind (21, true), raises KeyError / TypeError out of parse()", file=rel,
+              line=bad[0].lineno if bad else fi.node.lineno, function=fi.qualname, expected=".get(<key>) and a test of the result",
+              found=[short(b_) for b_ in bad])
+
+
+def rule_path_components_are_names(ctx, rule_id="C17.raw-deref"):
+    """The filesystem sink builds the path of the file it writes from the `type` and `id` of the object.  For an unregistered
+    type (custom content allowed) both are whatever the content says: 'a/b/c' gives FileNotFoundError (an OSError, outside the
+    documented family) after the type directory was already created, and '../../x' leaves the store directory altogether.
+    Every content value that is joined into a path is first tested to be a single file name (a raising test that applies
+    os.path.basename -- or looks for os.sep / os.path.sep -- to it)."""
+    run = ctx.run
+    prog = ctx.prog
+    fi = prog.func("stix2.datastore.filesystem::FileSystemSink._check_path_and_write")
+    rel = fi.module.relpath
+    obj = fi.params[1]
+    joined = []
+    for c in body_walk(fi.node):
+        if isinstance(c, ast.Call) and norm(c.func) == "os.path.join":
+            for a_ in c.args:
+                for x in ast.walk(a_):
+                    if isinstance(x, ast.Subscript) and norm(x.value) == obj and isinstance(x.slice, ast.Constant) and x.slice.value in ("type", "id"):
+                        joined.append((x.slice.value, c))
+    if len(joined) < 2:
+        raise AnalysisError("_check_path_and_write: fewer than two content values joined into a path (%d)" % len(joined))
+    # raising tests that look at the file-name shape of something
+    tests = [st_ for st_ in body_walk(fi.node) if isinstance(st_, ast.If) and st_.body and isinstance(st_.body[-1], ast.Raise)
+             and any(m in norm(st_.test) for m in ("os.path.basename(", "os.sep", "os.path.sep", "os.altsep"))]
+    # ... applied to the content values: directly, or through a loop over a tuple / list that names them
+    covered = set()
+    for st_ in tests:
+        txt = norm(st_.test)
+        for k in ("type", "id"):
+            if "%s['%s']" % (obj, k) in txt:
+                covered.add(k)
+        lp = getattr(st_, "parent", None)
+        while lp is not None and not isinstance(lp, (ast.For, ast.FunctionDef)):
+            lp = getattr(lp, "parent", None)
+        if isinstance(lp, ast.For) and isinstance(lp.target, ast.Name) and lp.target.id in names_of(st_.test):
+            for k in ("type", "id"):
+                if "%s['%s']" % (obj, k) in norm(lp.iter):
+                    covered.add(k)
+    first_join = min(c.lineno for _, c in joined)
+    early = all(st_.lineno < first_join for st_ in tests) if tests else False
+    for k in sorted({k for k, _ in joined}):
+        run.check(k in covered and early, rule_id, key(rel, fi.qualname, "path-component-is-a-file-name:%s" % k),
+                  "the %r of the object is joined into the path of the file to write without a test that it is a single file name: "
+                  "with custom content allowed, add({'type': 'x-foo', 'id': 'a/b/c'}) raises FileNotFoundError (outside the "
+                  "documented family) and leaves a directory behind, and an id of '../../x' writes outside the store" % k, file=rel,
+                  line=[c.lineno for kk, c in joined if kk == k][0], function=fi.qualname,
+                  expected="if os.path.basename(v) != v ...: raise ValueError, before the first os.path.join", found="no such test")
+
+
+def names_of(e):
+    return {n_.id for n_ in ast.walk(e) if isinstance(n_, ast.Name)}
